@@ -11,6 +11,9 @@ import BufModel.Path
   * `owner`           moduleSet.getModuleForFilePathUncached
   * `depsRec`/`moduleDeps`   bufmodule.getModuleDepsRec / getModuleDeps exactly as coded
   * `selectAdded`/`buildModuleSet`   added_module.go selection (target > local > newest commit)
+  * `v1Adds`/`v2Adds`  bufworkspace: the pins of which buf.lock files are added (v1: the lock of
+                      EVERY module directory of the workspace, targeted or not; v2: the one
+                      top-level lock) and in which order
   * `toDAG`           ModuleSetToDAG / moduleSetToDAGRec (no visited set, as coded)
   * `lsFiles`         controller.getImageFileInfosForModuleSet + AppendWellKnownTypeImageFileInfos
                       + bufimage.ImageFileInfosWithOnlyTargetsAndTargetImports
@@ -289,6 +292,36 @@ def Added.toMod (a : Added) : Mod :=
 /-- `getUniqueSortedAddedModulesByOpaqueID`: one selected module per OpaqueID, sorted. -/
 def uniqueAdded (as : List Added) : List Added :=
   (sortBy natLe (dedup (as.map (·.oid)))).filterMap (fun o => selectAdded (as.filter (fun a => a.oid == o)))
+
+/-! ## 3b. workspaces on disk: which buf.lock pins are added, in which order
+
+  `bufworkspace.workspaceProvider`:
+  * `getWorkspaceForBucketAndModuleDirPathsV1Beta1OrV1` (buf.work.yaml + v1 modules) walks ALL
+    module directories of the workspace in buf.work.yaml order — targeted by the input or not —
+    and for each one first calls `AddRemoteModule(depModuleKey, false)` for every pin of THAT
+    directory's buf.lock and then `AddLocalModule` for the directory;
+  * `getWorkspaceForBucketBufYAMLV2` adds the pins of the single top-level buf.lock and then the
+    local modules.
+  Which local modules are targets (and with which paths) is decided by
+  workspace_targeting.go / module_targeting.go and arrives here as data (`loc.isTarget`). -/
+
+/-- `AddRemoteModule(depModuleKey, false)`: a pin is remote and never a target. -/
+def Added.asPin (a : Added) : Added := { a with isLocal := false, isTarget := false }
+
+/-- One `directories:` entry of a buf.work.yaml: the local module and the pins of its own
+    buf.lock (empty when the directory has no buf.lock). -/
+structure LockedMod where
+  pins : List Added
+  loc : Added
+  deriving Repr
+
+/-- the AddRemoteModule / AddLocalModule call sequence of a v1 workspace. -/
+def v1Adds (ms : List LockedMod) : List Added :=
+  ms.flatMap (fun m => m.pins.map Added.asPin ++ [m.loc])
+
+/-- the call sequence of a v2 workspace: the top-level buf.lock, then the modules of buf.yaml. -/
+def v2Adds (lock : List Added) (locs : List Added) : List Added :=
+  lock.map Added.asPin ++ locs
 
 /-! ## 4. ModuleSetToDAG -/
 
